@@ -134,6 +134,11 @@ def declItems (c : Case) (fwd : Bool) : List Item :=
   ((c.fields.filter (·.inBase) ++ c.fields.filter (fun f => !f.inBase)).filter (fun f => (declPart f).1)).map
     (declItem fwd (c.rhs == .identical))
 
+/-- the documented keyed order fields of C, as `name:view` -/
+def declKeyTags (c : Case) : List String :=
+  ((c.fields.filter (·.inBase) ++ c.fields.filter (fun f => !f.inBase)).filter
+      (fun f => (declPart f).1 && (declPart f).2 != .raw)).map (fun f => f.name ++ (declPart f).2.suffix)
+
 def sameClass (c : Case) : Bool := c.rhs == .same || c.rhs == .identical
 
 def Script.boolean (s : Script) : Bool :=
@@ -174,7 +179,9 @@ def specSame (c : Case) (o : Obs) : Bool :=
     o.ops.get op == declCmp op its &&
     o.rops.get op == declCmp op rits &&
     -- only order-participating fields are compared, each through its order key
-    (o.trace.get op).all (fun t => (allowedTags its).contains t)) &&
+    (o.trace.get op).all (fun t => (allowedTags its).contains t) &&
+    -- only the keys of order-participating keyed fields are ever applied
+    (o.keys.get op).all (fun t => (declKeyTags c).contains t)) &&
   -- mutual consistency: converse (values' reflected comparisons agree) …
   o.ops.lt.isTruthy == o.rops.gt.isTruthy && o.ops.le.isTruthy == o.rops.ge.isTruthy &&
   o.ops.gt.isTruthy == o.rops.lt.isTruthy && o.ops.ge.isTruthy == o.rops.le.isTruthy &&
@@ -185,7 +192,8 @@ def specSame (c : Case) (o : Obs) : Bool :=
 
 def specOther (o : Obs) : Bool :=
   o.direct.all (· == .NI) && o.ops.all (· == .typeErr) && o.rops.all (· == .typeErr) &&
-  o.trace.lt == [] && o.trace.le == [] && o.trace.gt == [] && o.trace.ge == []
+  o.trace.lt == [] && o.trace.le == [] && o.trace.gt == [] && o.trace.ge == [] &&
+  o.keys.lt == [] && o.keys.le == [] && o.keys.gt == [] && o.keys.ge == []
 
 def spec (c : Case) (o : Obs) : Bool :=
   if c.api == .define && c.cmp != .unset then true      -- define() has no cmp=: outside the statement
